@@ -157,13 +157,12 @@ impl Members {
             && let Some(state) = self.states.get_mut(actor_id)
         {
             // We check which range-bucket the RTT is
-            // contained in, then update the stored index
-            for (ring, n) in RING_BUCKETS.iter().enumerate() {
-                if n.contains(&avg) {
-                    state.ring = Some(ring as u8);
-                    break;
-                }
-            }
+            // contained in, then update the stored index; an average
+            // outside of every bucket means the member is in no ring
+            state.ring = RING_BUCKETS
+                .iter()
+                .position(|n| n.contains(&avg))
+                .map(|ring| ring as u8);
         }
     }
 
